@@ -7,3 +7,11 @@ pub use crate::poly_mod::factorize_mod_p::factorize_mod_p;
 pub use crate::poly_mod::hensel::lift_factorization;
 pub use crate::poly_mod::linear::find_linear_factors;
 pub use crate::poly_mod::prim::*;
+
+/// Verification access to the private stages (feature `verif-hooks` only).
+#[cfg(feature = "verif-hooks")]
+pub mod verif {
+    pub use super::factorize_mod_p::verif::*;
+    pub use super::hensel::hensel_lift;
+    pub use super::hensel::verif::*;
+}
